@@ -77,36 +77,111 @@ func c13NilGuardTarget(c *Ctx, std *waStd, mf *waFile) {
 func c13InterfaceBoxing(c *Ctx, p *Prog, wp *packages.Package) {
 	const rule = "interface-boxing-guard"
 	info := wp.TypesInfo
-	fd := p.MustFunc(rule, wp, "Module.GenValueType_Map")
-	if fd == nil {
+	root := p.MustFunc(rule, wp, "Module.GenValueType_Map")
+	if root == nil {
 		return
 	}
-	// `_, flag := T.(*Interface)`  → flag ↦ T ; `x := NewLocal(_, T)` → x ↦ T
-	flagOf := map[types.Object]types.Object{}
-	typeOfLocal := map[types.Object]types.Object{}
-	ast.Inspect(fd.Body, func(n ast.Node) bool {
-		as, ok := n.(*ast.AssignStmt)
-		if !ok || len(as.Rhs) != 1 {
-			return true
+	// the generator and the helpers it was split into: GenValueType_Map and the methods of Map
+	var fds []*ast.FuncDecl
+	for _, f := range wp.Syntax {
+		for _, d := range f.Decls {
+			if fd, ok := d.(*ast.FuncDecl); ok && fd.Body != nil && (fd == root || (fd.Recv != nil && strings.HasPrefix(declName(fd), "Map."))) {
+				fds = append(fds, fd)
+			}
 		}
-		switch r := as.Rhs[0].(type) {
-		case *ast.TypeAssertExpr:
-			if len(as.Lhs) == 2 {
-				if st, ok := r.Type.(*ast.StarExpr); ok && types.ExprString(st.X) == "Interface" {
-					if f, t := identObj(info, as.Lhs[1]), identObj(info, r.X); f != nil && t != nil {
-						flagOf[f] = t
+	}
+	// per function: `_, flag := T.(*Interface)` → flag ↦ T ; `x := NewLocal(_, T)` → x ↦ T
+	type fnFacts struct {
+		flagOf      map[types.Object]types.Object
+		typeOfLocal map[types.Object]types.Object
+	}
+	facts := map[*ast.FuncDecl]*fnFacts{}
+	for _, fd := range fds {
+		ff := &fnFacts{map[types.Object]types.Object{}, map[types.Object]types.Object{}}
+		facts[fd] = ff
+		ast.Inspect(fd.Body, func(n ast.Node) bool {
+			as, ok := n.(*ast.AssignStmt)
+			if !ok || len(as.Rhs) != 1 {
+				return true
+			}
+			switch r := as.Rhs[0].(type) {
+			case *ast.TypeAssertExpr:
+				if len(as.Lhs) == 2 {
+					if st, ok := r.Type.(*ast.StarExpr); ok && types.ExprString(st.X) == "Interface" {
+						if f, t := identObj(info, as.Lhs[1]), identObj(info, r.X); f != nil && t != nil {
+							ff.flagOf[f] = t
+						}
+					}
+				}
+			case *ast.CallExpr:
+				if len(as.Lhs) == 1 && types.ExprString(r.Fun) == "NewLocal" && len(r.Args) == 2 {
+					if x, t := identObj(info, as.Lhs[0]), identObj(info, r.Args[1]); x != nil && t != nil {
+						ff.typeOfLocal[x] = t
 					}
 				}
 			}
-		case *ast.CallExpr:
-			if len(as.Lhs) == 1 && types.ExprString(r.Fun) == "NewLocal" && len(r.Args) == 2 {
-				if x, t := identObj(info, as.Lhs[0]), identObj(info, r.Args[1]); x != nil && t != nil {
-					typeOfLocal[x] = t
+			return true
+		})
+	}
+	// role of a type variable: the Map field it stands for (`kt := m.Key`, `kt, et := m.Key, m.Elem`, or a parameter
+	// used as `Map{Key: kt}`)
+	roleOf := func(fd *ast.FuncDecl, o types.Object) string {
+		role := ""
+		ast.Inspect(fd, func(n ast.Node) bool {
+			switch x := n.(type) {
+			case *ast.AssignStmt:
+				if len(x.Lhs) == len(x.Rhs) {
+					for i, l := range x.Lhs {
+						if identObj(info, l) == o {
+							if se, ok := x.Rhs[i].(*ast.SelectorExpr); ok {
+								role = se.Sel.Name
+							}
+						}
+					}
+				}
+			case *ast.KeyValueExpr:
+				if identObj(info, x.Value) == o {
+					if k, ok := x.Key.(*ast.Ident); ok {
+						role = k.Name
+					}
 				}
 			}
-		}
-		return true
-	})
+			return true
+		})
+		return role
+	}
+	// bool parameters that carry an is-interface flag: parameter ↦ role of the type the flag was computed from, taken
+	// from every call site inside the generator
+	paramRole := map[types.Object]string{}
+	for _, caller := range fds {
+		ast.Inspect(caller.Body, func(n ast.Node) bool {
+			call, ok := n.(*ast.CallExpr)
+			if !ok {
+				return true
+			}
+			fn := CalleeOf(info, call)
+			if fn == nil {
+				return true
+			}
+			sig := fn.Type().(*types.Signature)
+			for i, a := range call.Args {
+				if i >= sig.Params().Len() {
+					break
+				}
+				if fo := identObj(info, a); fo != nil {
+					if t := facts[caller].flagOf[fo]; t != nil {
+						r := roleOf(caller, t)
+						pobj := sig.Params().At(i)
+						if old, seen := paramRole[pobj]; seen && old != r {
+							r = "" // call sites disagree
+						}
+						paramRole[pobj] = r
+					}
+				}
+			}
+			return true
+		})
+	}
 	isEmit := func(e ast.Expr, name string) (*ast.CallExpr, bool) {
 		var found *ast.CallExpr
 		ast.Inspect(e, func(n ast.Node) bool {
@@ -119,66 +194,80 @@ func c13InterfaceBoxing(c *Ctx, p *Prog, wp *packages.Package) {
 		})
 		return found, found != nil
 	}
-	// walk with the stack of enclosing if statements
 	n := 0
-	var walk func(list []ast.Stmt, guards []*ast.IfStmt, inElse []bool)
-	walk = func(list []ast.Stmt, guards []*ast.IfStmt, inElse []bool) {
-		for _, s := range list {
-			switch x := s.(type) {
-			case *ast.BlockStmt:
-				walk(x.List, guards, inElse)
-			case *ast.IfStmt:
-				walk(x.Body.List, append(guards, x), append(inElse, false))
-				if eb, ok := x.Else.(*ast.BlockStmt); ok {
-					walk(eb.List, append(guards, x), append(inElse, true))
-				} else if ei, ok := x.Else.(*ast.IfStmt); ok {
-					walk([]ast.Stmt{ei}, guards, inElse)
-				}
-			default:
-				call, ok := isEmit2(s, isEmit, "EmitGenMakeInterface")
-				if !ok || len(call.Args) < 1 {
-					continue
-				}
-				n++
-				operand := identObj(info, call.Args[0])
-				construct := fmt.Sprintf("Module.GenValueType_Map: MakeInterface #%d of %s", n, types.ExprString(call.Args[0]))
-				loc := p.Pos(call.Pos())
-				tObj := typeOfLocal[operand]
-				good := false
-				why := "it is not in the else arm of an `is interface` test of the operand's type"
-				for i := len(guards) - 1; i >= 0 && !good; i-- {
-					g := guards[i]
-					flag := identObj(info, g.Cond)
-					if flag == nil || flagOf[flag] == nil {
+	for _, fd := range fds {
+		ff := facts[fd]
+		fname := declName(fd)
+		k := 0
+		// walk with the stack of enclosing if statements
+		var walk func(list []ast.Stmt, guards []*ast.IfStmt, inElse []bool)
+		walk = func(list []ast.Stmt, guards []*ast.IfStmt, inElse []bool) {
+			for _, s := range list {
+				switch x := s.(type) {
+				case *ast.BlockStmt:
+					walk(x.List, guards, inElse)
+				case *ast.IfStmt:
+					walk(x.Body.List, append(guards[:len(guards):len(guards)], x), append(inElse[:len(inElse):len(inElse)], false))
+					if eb, ok := x.Else.(*ast.BlockStmt); ok {
+						walk(eb.List, append(guards[:len(guards):len(guards)], x), append(inElse[:len(inElse):len(inElse)], true))
+					} else if ei, ok := x.Else.(*ast.IfStmt); ok {
+						walk([]ast.Stmt{ei}, guards, inElse)
+					}
+				default:
+					call, ok := isEmit2(s, isEmit, "EmitGenMakeInterface")
+					if !ok || len(call.Args) < 1 {
 						continue
 					}
-					if tObj == nil || flagOf[flag] != tObj {
-						why = "the enclosing test is about another type than the operand's"
-						continue
-					}
-					if !inElse[i] {
-						why = "it is in the arm taken when the type IS an interface"
-						continue
-					}
-					// then arm converts the same operand
-					conv := false
-					for _, ts := range g.Body.List {
-						if cc, ok := isEmit2(ts, isEmit, "EmitGenChangeInterface"); ok && len(cc.Args) >= 1 && identObj(info, cc.Args[0]) == operand {
-							conv = true
+					n++
+					k++
+					operand := identObj(info, call.Args[0])
+					construct := fmt.Sprintf("%s: MakeInterface #%d of %s", fname, k, types.ExprString(call.Args[0]))
+					loc := p.Pos(call.Pos())
+					tObj := ff.typeOfLocal[operand]
+					good := false
+					why := "it is not in the else arm of an `is interface` test of the operand's type"
+					for i := len(guards) - 1; i >= 0 && !good; i-- {
+						g := guards[i]
+						flag := identObj(info, g.Cond)
+						if flag == nil {
+							continue
 						}
+						about := false // the flag is about the operand's type
+						if t := ff.flagOf[flag]; t != nil {
+							about = tObj != nil && t == tObj
+						} else if r, isParam := paramRole[flag]; isParam {
+							about = tObj != nil && r != "" && r == roleOf(fd, tObj)
+						} else {
+							continue
+						}
+						if !about {
+							why = "the enclosing test is about another type than the operand's"
+							continue
+						}
+						if !inElse[i] {
+							why = "it is in the arm taken when the type IS an interface"
+							continue
+						}
+						// then arm converts the same operand
+						conv := false
+						for _, ts := range g.Body.List {
+							if cc, ok := isEmit2(ts, isEmit, "EmitGenChangeInterface"); ok && len(cc.Args) >= 1 && identObj(info, cc.Args[0]) == operand {
+								conv = true
+							}
+						}
+						if !conv {
+							why = "the then arm does not convert the same operand with ChangeInterface"
+							continue
+						}
+						good = true
 					}
-					if !conv {
-						why = "the then arm does not convert the same operand with ChangeInterface"
-						continue
-					}
-					good = true
+					c.Check(good, rule, construct, loc, "else arm of the interface test of the operand's type; then arm converts",
+						construct+": "+why+": for a map whose static key (or element) type is an interface the value is wrapped a second time, its dynamic type becomes the interface type, and it never compares equal to the entries the other helpers stored (delete/lookup silently miss)")
 				}
-				c.Check(good, rule, construct, loc, "else arm of the interface test of the operand's type; then arm converts",
-					construct+": "+why+": for a map whose static key (or element) type is an interface the value is wrapped a second time, its dynamic type becomes the interface type, and it never compares equal to the entries the other helpers stored (delete/lookup silently miss)")
 			}
 		}
+		walk(fd.Body.List, nil, nil)
 	}
-	walk(fd.Body.List, nil, nil)
 	c.Min(rule, "MakeInterface sites in the map helper generator", n, 5)
 }
 
